@@ -99,5 +99,24 @@ def alias (j : Json) : Except String Json := do
   pure (Json.mkObj [("wrapper_aliased", jQs (cells.map (fun c => wA 0 c))), ("wrapper_fresh", jQs (cells.map (fun c => wF 1 c))),
     ("field_separate", jQs (cells.map (fun c => fS 1 (c + 1)))), ("field_aliased", jQs (cells.map (fun c => fA 0 (c + 1))))])
 
-def handlers : List (String × Handler) := [("c03.apply", apply), ("c03.writes", writes), ("c03.seqghost", seqghost), ("c03.alias", alias)]
+/-- {"target": "virtual_point"|"value"|"derivative", "dx", "v", "cells": [..]} -> `userGhost` for every adjacent cell value,
+next to the ghost value of the ORDINARY condition with the same data (`ghost1 (vpDirichlet v)`, `ghost1 (vpNeumann dx v)`) -/
+def userghost (j : Json) : Except String Json := do
+  let t ← fldS j "target"
+  let dx ← fldQ j "dx"
+  let v ← fldQ j "v"
+  let cells ← fldQs j "cells"
+  let tgt : UserTarget ← (match t with
+    | "virtual_point" => pure UserTarget.virtualPoint
+    | "value" => pure UserTarget.value
+    | "derivative" => pure UserTarget.derivative
+    | _ => throw s!"unknown target {t}")
+  let ordinary (c : Rat) : Rat := match tgt with
+    | .virtualPoint => v
+    | .value => ghost1 (vpDirichlet v) c
+    | .derivative => ghost1 (vpNeumann dx v) c
+  pure (Json.mkObj [("user", jQs (cells.map (userGhost tgt dx v))), ("ordinary", jQs (cells.map ordinary))])
+
+def handlers : List (String × Handler) := [("c03.apply", apply), ("c03.writes", writes), ("c03.seqghost", seqghost), ("c03.alias", alias),
+  ("c03.userghost", userghost)]
 end PdeVerif.Drv.C03
